@@ -9,6 +9,8 @@ import (
 	"fmt"
 	"strings"
 	"testing"
+
+	"verifharness/ref"
 )
 
 var reprDocs = []string{
@@ -68,4 +70,85 @@ func TestC12Representation(t *testing.T) {
 	st.mu.Lock()
 	st.Exhaustive["C12.representation"] = fmt.Sprintf("%d template expressions x %d representation-sensitive documents x {same-doc, own-docs} (shard %d/%d: %d cases)", len(c06Templates), len(reprDocs), shard, nshards, n)
 	st.mu.Unlock()
+}
+
+// TestC13Endurance: whatever a search leaves behind in the compiled expression must not add
+// up. Every template is searched once on a good document, then 400 times on documents that
+// make it fail in different places (and 100 times on good ones), then on the first document
+// again: same answer as the first time and as the one-shot Search.
+func TestC13Endurance(t *testing.T) {
+	good := mustJSON(reprDocs[0])
+	bad := []interface{}{
+		mustJSON(`{"people":[{"name":"b","age":2,"tags":["x"]},{"name":1,"age":"old","tags":"t"},{"name":"a","age":null}],"nums":[3,"x",1,null],"strs":["b",7,"a"],"o1":3,"o2":"s","nested":[[2,1],"x",[0]],"lists":[[2,1],3]}`),
+		mustJSON(`{"people":"none","nums":{"a":1},"strs":null,"o1":[],"o2":[],"nested":7,"lists":"l"}`),
+		nil,
+		mustJSON(`[1,"a",null,[2],{"b":3}]`),
+	}
+	// big arrays whose last key has another type: by-expression functions fail after many comparisons
+	big := make([]interface{}, 80)
+	for i := range big {
+		big[i] = map[string]interface{}{"name": fmt.Sprintf("n%02d", (i*37)%80), "age": float64((i * 37) % 80), "tags": []interface{}{"t"}}
+	}
+	big[79].(map[string]interface{})["age"] = "old"
+	big[40].(map[string]interface{})["name"] = 5.0
+	bad = append(bad, map[string]interface{}{"people": big, "nums": []interface{}{1.0, "x"}, "strs": []interface{}{"a", 1.0}})
+	n := 0
+	for _, e := range c06Templates {
+		c, err, pan := libCompile(e)
+		if err != nil || pan != nil {
+			continue
+		}
+		oneshot := libSearch(e, ref.DeepCopy(good))
+		var first libOut
+		first.Panic = safely(func() { first.Val, first.Err = c.Search(ref.DeepCopy(good)) })
+		for i := 0; i < 500; i++ {
+			d := bad[i%len(bad)]
+			if i%5 == 4 {
+				d = good
+			}
+			if p := safely(func() { _, _ = c.Search(ref.DeepCopy(d)) }); p != nil {
+				first.Panic = p
+				break
+			}
+		}
+		var last libOut
+		last.Panic = safely(func() { last.Val, last.Err = c.Search(ref.DeepCopy(good)) })
+		n++
+		cs := Case{Property: "C13", Kind: "endurance", Expr: e, Doc: reprDocs[0]}
+		// where the order of object members is involved two evaluations may differ legitimately
+		unordered := true
+		if nn, st, pe := ref.ParseText(e); pe == nil && st == ref.LexOK {
+			ev := &ref.Ev{}
+			w, _ := ev.Eval(nn, ref.DeepCopy(good))
+			unordered = ev.Ambiguous || hasBag(w)
+		}
+		viol := ""
+		switch {
+		case first.Panic != nil || last.Panic != nil:
+			viol = "Search panicked"
+		case !unordered && (first.Err != nil) != (last.Err != nil):
+			viol = "after 500 further searches (most of them failing) the compiled expression fails where it succeeded before (or the reverse)"
+		case !unordered && showOut(first) != showOut(last):
+			viol = "after 500 further searches (most of them failing) the compiled expression answers the first document differently"
+		case !unordered && oneshot.Panic == nil && showOut(oneshot) != showOut(last):
+			viol = "after 500 further searches the compiled expression differs from the one-shot Search"
+		}
+		statsFor("C13").RecordKey("endurance:"+e, true, func() interface{} { return cs }, "endurance")
+		if viol != "" {
+			cs.Note, cs.Expected, cs.Got = viol, showOut(first), showOut(last)
+			p := writeReplay(cs)
+			t.Fatalf("VIOLATION-CASE file=%s property=C13 kind=endurance expr=%q: %s (first %s, last %s)", p, e, viol, showOut(first), showOut(last))
+		}
+	}
+	st := statsFor("C13")
+	st.mu.Lock()
+	st.Exhaustive["C13.endurance"] = fmt.Sprintf("%d template expressions: 1 search, 500 further searches (400 failing at different depths incl. by-expression comparisons on 80 elements), then the first document again", n)
+	st.mu.Unlock()
+}
+
+func init() {
+	predicates["endurance"] = func(c Case) (r Result) {
+		r.Discard = "replay-by-running-TestC13Endurance"
+		return
+	}
 }
